@@ -7,7 +7,12 @@ Import ListNotations.
 Local Open Scope N_scope.
 
 (* the linearizability checker instantiated with the recency-list specification *)
+Definition rspec_eqb (a b : rspec) : bool := (r_cap a =? r_cap b) && pairs_eqb (r_items a) (r_items b).
+(* memoized search: Some true is proved sound *)
 Definition lru_lin (bud cap : N) (h : list (@orec op res)) : option bool :=
+  lin_check_m rspec op res r_step res_eqb rspec_eqb bud (r_new cap) h.
+(* plain search: Some true and Some false are both proved *)
+Definition lru_lin_complete (bud cap : N) (h : list (@orec op res)) : option bool :=
   lin_check_b rspec op res r_step res_eqb bud (r_new cap) h.
 
 (* lock modes as read from the Go source *)
